@@ -82,6 +82,7 @@ class Fn:
         self._sym_cache = {}
         self._sym_cache_deep = {}
         self._deep = False
+        self._trunc = 0
         self._upvar_names = None
 
     def __repr__(self):
@@ -350,7 +351,8 @@ class Fn:
     def sym_local(self, l, depth=0):
         if l in self._sym_cache:
             return self._sym_cache[l]
-        if depth > 40:
+        if depth > 200:
+            self._trunc += 1
             return ("local", l)
         if 1 <= l <= self.nargs:
             r = ("arg", l, self.local_name(l) or ("_%d" % l))
@@ -362,6 +364,7 @@ class Fn:
             return r
         ds = [x for x in self.defs.get(l, []) if x[2] != "partial"]
         parts = [x for x in self.defs.get(l, []) if x[2] == "partial"]
+        t0 = self._trunc
         if len(ds) == 1 and not parts:
             b, i, kind, payload = ds[0]
             self._sym_cache[l] = ("local", l)  # cycle guard
@@ -369,7 +372,10 @@ class Fn:
                 r = self.sym_rvalue(payload, depth + 1)
             else:
                 r = self.sym_call(payload, b, depth + 1)
-            self._sym_cache[l] = r
+            if self._trunc != t0:
+                del self._sym_cache[l]  # depth-truncated: do not poison the cache
+            else:
+                self._sym_cache[l] = r
             return r
         if len(ds) > 1 and not parts:
             # all defs agree? (e.g. the same value moved in on two arms)
@@ -381,10 +387,13 @@ class Fn:
                 else:
                     vals.append(self.sym_call(payload, b, depth + 1))
             if all(v == vals[0] for v in vals) and vals[0][0] != "call":
-                self._sym_cache[l] = vals[0]
-                return vals[0]
-            r = ("phi", l, tuple(vals))
-            self._sym_cache[l] = r
+                r = vals[0]
+            else:
+                r = ("phi", l, tuple(vals))
+            if self._trunc != t0:
+                del self._sym_cache[l]
+            else:
+                self._sym_cache[l] = r
             return r
         r = ("local", l, self.local_name(l))
         self._sym_cache[l] = r
@@ -443,7 +452,7 @@ class Fn:
                 return ("closure", c["closure"])
             if "v" in c:
                 return ("const", c["v"], c["ty"])
-            if "promoted" in c and depth < 30:
+            if "promoted" in c and depth < 150:
                 pf = self.promoted_fn(c["promoted"])
                 if pf is not None:
                     return pf.sym_local(0)
@@ -539,7 +548,7 @@ def sym_calls(sym, acc=None):
 
 def sym_contains(sym, pred):
     if isinstance(sym, tuple):
-        if pred(sym):
+        if sym and isinstance(sym[0], str) and pred(sym):
             return True
         return any(sym_contains(x, pred) for x in sym if isinstance(x, tuple))
     return False
